@@ -22,6 +22,9 @@ TInit == i = 1 /\ inp = <<>> /\ out = <<>> /\ done = FALSE
 Check(it) ==
     LET tpj == AsSeq([k \in 1..Len(it.tpj) |-> SeqToSet(it.tpj[k])])
         l1 == Failing(it.s, it.F, it.mode, it.out, it.m, it.jps, tpj, it.walk # "fail")
+              \* which C02 clauses make it not runnable (names with a colon are details, not clauses of C11)
+              \cup {"Runnable:" \o c : c \in AllocFailing(it.out, it.m, it.jps, tpj)}
+              \cup (IF it.walk = "fail" THEN {"Runnable:DriverWalksEveryStep"} ELSE {})
         l2 == ~it.l2 \/ it.out = FilterCodeV(it.s, it.F, it.mode, TRUE) \/ it.out = FilterCodeV(it.s, it.F, it.mode, FALSE)
     IN /\ IF l1 = {} THEN TRUE ELSE PrintT(<<"V", it.id, 1, "L1", l1>>)
        /\ IF l1 # {} \/ l2 THEN TRUE ELSE PrintT(<<"V", it.id, 1, "L2", {}>>)
